@@ -5,6 +5,7 @@ typedef struct {
   int maxdim;
   int winprob;  /* in 1/16: operand is a window into a larger owner */
   int deep;     /* the engine runs this case with the smallest cache knobs: steer dimensions into the recursive regimes (> 256, PLE beyond L3/8) */
+  int sliver;   /* extremely flat operands: dimensions alternate between 1..4 and 20000..26000 (only for operations whose cost stays small) */
   int strat1;   /* 1 + ordinal of this case among the cases of its operation (0: none): enumerable classes (row width, aliasing mode) are cycled instead of drawn */
 } genopt_t;
 extern const char *const gen_all_ops[];
